@@ -213,9 +213,6 @@ impl WKind {
     fn timed(self) -> bool {
         matches!(self, WKind::WaitT | WKind::StopWaitT | WKind::KillWaitT | WKind::DrainWaitT)
     }
-    fn kills(self) -> bool {
-        matches!(self, WKind::KillWait | WKind::KillWaitT)
-    }
 }
 
 /// points that are steps of the model; every other point (tree.*, reg.*, pg.*, admission points)
@@ -505,13 +502,9 @@ fn run_case(env: &mut Env, cause: &str, kinds: &[WKind], ndrain: usize, collapse
         env.st.bump(&format!("form_{}", k.name()));
     }
     // a kill accepted while a GRACEFUL exit is between `Stopping` and `post_stop` turns it into a killed
-    // exit (post_stop skipped, children terminated by handle_signal): C03's subject, not modelled here —
-    // kill_and_wait callers make their send step only once `post_stop` has been reached
-    let graceful = matches!(cause, "stop" | "drain" | "stoppanic");
-    let mut reached_post = !graceful;
+    // exit (post_stop skipped, children terminated by handle_signal): `Tid.kill` of the model
     // the caller has been polled past `wait.created` (its `Notified` is registered)
     let mut past_created = vec![false; n];
-    let mut sent = vec![false; n];
 
     let mut sig = String::new();
     let mut steps = 0usize;
@@ -540,14 +533,10 @@ fn run_case(env: &mut Env, cause: &str, kinds: &[WKind], ndrain: usize, collapse
         let ex = if matches!(eph, ThreadPhase::AtPoint(_)) { Some(at(&eph)) } else { None };
         // after the exiter has finished every waiter gets at most POST_POLLS more polls: a waiter
         // that is still pending then has lost its wake-up
-        if ex.is_none() || ex == Some("post_stop") {
-            reached_post = true;
-        }
         let ws: Vec<(usize, &'static str)> = wph
             .iter()
             .enumerate()
             .filter(|(i, p)| matches!(p, ThreadPhase::AtPoint(_)) && if ex.is_some() { !stale[*i] } else { post_polls[*i] < POST_POLLS })
-            .filter(|(i, _)| !(kinds[*i].kills() && !sent[*i] && !reached_post))
             .map(|(i, p)| (i, at(p)))
             .collect();
         let timeable: Vec<usize> =
@@ -595,7 +584,6 @@ fn run_case(env: &mut Env, cause: &str, kinds: &[WKind], ndrain: usize, collapse
                 if ex.is_none() {
                     post_polls[i] += 1;
                 }
-                sent[i] = true;
                 if p == "wait.checked" {
                     past_created[i] = true;
                 }
